@@ -9,7 +9,8 @@
    [expect f idx a] is the message a reader has to deliver for it (every header field and payload byte);
    [markers_only_at_starts]: neither "DLT\x01" nor "DLS\x01" starts anywhere but at the message starts. *)
 From Coq Require Import List NArith Bool Lia.
-From AdltV Require Import Base.Res Base.MachInt Dlt.Frame Dlt.FrameProofs Dlt.Iter Dlt.IterProofs Dlt.IterTotal Dlt.IterReader.
+From AdltV Require Import Base.Res Base.MachInt Dlt.Frame Dlt.FrameProofs Dlt.Iter Dlt.IterProofs Dlt.IterTotal Dlt.IterReader
+  Reader.LowMark Reader.LowMarkSpec Dlt.Chunk Dlt.IterSched.
 Import ListNotations.
 Open Scope N_scope.
 
@@ -190,6 +191,33 @@ Proof.
   exact (iter_recovers_all_any_reader R fill consume rem low Hmin fill_spec consume_spec f start segs gfin r0 Hlow).
 Qed.
 
+(* the instance for the crate's own wiring under sliced reads: DltMessageIterator over LowMarkBufReader (the reader
+   model of property C04, Reader/LowMark.v: fill_buf loop, compaction, consume) over a source that satisfies its
+   reads in ARBITRARY slices -- [sched] is the list of read sizes the source chooses, each clipped to [1, room]; the
+   empty schedule is the Cursor / regular-file case (every read satisfied completely) -- with any capacity and any
+   low mark >= 16 + 65535 that LowMarkBufReader::new accepts: for EVERY schedule the run yields exactly the messages,
+   in order, numbered from start, fields intact, and the same counters; what the reader has not handed out is a
+   suffix of the trailing run shorter than a minimal message.  Reading in slices (pipe, socket, any `Read`
+   adaptor) never changes C01's outcome: the reader keeps refilling until it holds low-mark bytes or the source
+   is at its end (C04_lookahead), and on such windows the parsers answer as on the whole rest (stream_stable). *)
+Theorem C01_iter_recovers_all_scheduled_reads
+    (f : framing) (start : N) (segs : list seg) (gfin : bytes) (sched : list N) (capacity low : N) :
+  16 + 65535 <= low -> low + 4096 <= capacity -> capacity <= usizemax ->
+  nlen (stream f segs gfin) <= usizemax ->
+  Forall (fun s => wf_amsg (snd s)) segs ->
+  markers_only_at_starts f segs gfin ->
+  start + N.of_nat (length segs) <= u32max ->
+  exists st r',
+    run_iter_rd start capacity low (stream f segs gfin) sched = Ok (expect_list f start segs, st, r') /\
+    let tail := ndrop (stream_pos r') (stream f segs gfin) in
+    (exists consumed, gfin = consumed ++ tail) /\
+    blen tail < min_size f /\
+    i_index st = start + N.of_nat (length segs) /\
+    i_skipped st + blen tail = garbage_total segs + blen gfin /\
+    i_processed st + blen tail = blen (stream f segs gfin) /\
+    i_processed st <= blen (stream f segs gfin).
+Proof. exact (iter_recovers_all_scheduled f start segs gfin sched capacity low). Qed.
+
 (* the bound is tight: a reader that keeps the same contract with low = 16 + 65535 - 1 (shows 65550 bytes when more
    remain) loses a maximum-length message and everything after it -- 1 of 3 messages is yielded *)
 Definition short_fill (r : bytes) : bytes * bytes := (r, if 65550 <? blen r then firstn (N.to_nat 65550) r else r).
@@ -257,6 +285,26 @@ Proof.
   exists st, tail. split; [exact Hr|]. split; [reflexivity|]. rewrite Hs. reflexivity.
 Qed.
 
+(* non-vacuity of the scheduled-reads theorem: the example stream, the crate's constants (512 KiB, 65551 and 65555),
+   both framings, under the all-1-byte schedule, 1000-byte slices and an irregular schedule: three messages each *)
+Example C01_scheduled_reads_nonvacuous :
+  forall f sched low, In sched [repeat 1 200; repeat 1000 5; [7; 1; 65536; 3; 19]] -> In low [65551; 65555] ->
+    exists st r', run_iter_rd 10 524288 low (stream f ex_segs ex_gfin) sched = Ok (expect_list f 10 ex_segs, st, r') /\
+                  length (expect_list f 10 ex_segs) = 3%nat /\
+                  i_skipped st + blen (ndrop (stream_pos r') (stream f ex_segs ex_gfin)) = 31.
+Proof.
+  intros f sched low _ Hlow.
+  destruct (C01_nonvacuous f) as (Hwf & Hm & Hi & _).
+  assert (Hl : 16 + 65535 <= low /\ low + 4096 <= 524288).
+  { destruct Hlow as [<-|[<-|[]]]; split; vm_compute; discriminate. }
+  destruct Hl as [Hl1 Hl2].
+  assert (Hu : 524288 <= usizemax) by (vm_compute; discriminate).
+  assert (Hn : nlen (stream f ex_segs ex_gfin) <= usizemax) by (destruct f; vm_compute; discriminate).
+  destruct (C01_iter_recovers_all_scheduled_reads f 10 ex_segs ex_gfin sched 524288 low Hl1 Hl2 Hu Hn Hwf Hm Hi)
+    as (st & r' & Hr & _ & _ & _ & Hs & _).
+  exists st, r'. split; [exact Hr|]. split; [reflexivity|]. rewrite Hs. reflexivity.
+Qed.
+
 Print Assumptions C01_iter_recovers_all.
 Print Assumptions C01_iter_recovers_all_storage.
 Print Assumptions C01_iter_recovers_all_serial.
@@ -268,6 +316,8 @@ Print Assumptions C01_parse_serial_never_panics.
 Print Assumptions C01_run_total.
 Print Assumptions C01_run_terminates.
 Print Assumptions C01_iter_recovers_all_any_reader.
+Print Assumptions C01_iter_recovers_all_scheduled_reads.
+Print Assumptions C01_scheduled_reads_nonvacuous.
 Print Assumptions C01_buffered_low_mark_tight.
 Print Assumptions C01_incomplete_storage_frame_stops.
 Print Assumptions C01_incomplete_storage_frame_witness.
